@@ -106,7 +106,7 @@ class CGraph:
         # traverse the computational tree
         for nf,f in enumerate(self.functionList):
             try:
-                f.__class__.pushforward(f.func, f.args, Fout = f)
+                f.__class__.pushforward(f.func, f.args, f.kwargs, Fout = f)
             except Exception as e:
                 err_str = 'pushforward of node %d failed (%s)'%(nf,f.func.__name__)
                 err_str += 'reported error is:\n%s'%e
@@ -179,7 +179,7 @@ class CGraph:
         # valid again for further sweeps
         for f in self.functionList:
             if is_set(f.setitem):
-                f.__class__.pushforward(f.func, f.args, Fout = f)
+                f.__class__.pushforward(f.func, f.args, f.kwargs, Fout = f)
 
     def function(self, x_list):
         """ computes the function of a function y = f(x_list), where y is a scalar
